@@ -151,6 +151,19 @@ fn oracle(case: &[u8], obs: &mut Obs) -> Result<(), String> {
                 f.add_sec(b".bulk", m::SHT_PROGBITS, vec![0u8; (1 << 20) + 16 + c.below(1 << 20) as usize]);
                 obs.label("file_above_1MiB");
             }
+            // rarely: about 0xff00 empty sections in front, so that the version sections and the string tables they
+            // link to sit at section indexes in and around 0xff00..0xffff
+            if bulk == 0x5D || bulk == 0x5E {
+                let k = 0xff00 - 4 + c.below(0x108) as usize;
+                filegen::insert_fillers(&mut f, 1, k);
+                if let Some(i) = i_need.as_mut() {
+                    *i += k;
+                }
+                if let Some(i) = i_def.as_mut() {
+                    *i += k;
+                }
+                obs.label("0xff00_or_more_sections");
+            }
             filegen::random_layout(&mut c, &mut f, 24);
             let mut b = filegen::build(&f);
             if (236..252).contains(&bulk) {
@@ -209,7 +222,7 @@ pub fn property() -> Property {
     Property {
         id: "C13",
         level: "exploration",
-        rule: "cases are a version model (0..40 needed files x 0..20 auxiliary records with unique indexes>=2, names, hashes, flags; 0..40 definitions with unique indexes>=1 disjoint from the needs and 1..5 names; a versym array mixing 0, 1, defined, needed, unknown indexes, each optionally with bit 15) laid out by an independent builder: records in a random linear extension of the forward partial order (each Verneed/Verdef before its successor and before its own aux chain, aux chains of different parents interleaved, random garbage gaps, first record at section offset 0) or contiguously, next/aux links as increments, shared or separate string tables, class x order x fixed/run-time spec, queried through SymbolVersionTable::new on bare sections (40% with leading bytes and the matching non-zero starting offset), ElfBytes::symbol_version_table and ElfStream::symbol_version_table on a generated file (sh_link/sh_info wiring, shuffled section order; one file in 64 carries an extra section of 1..2 MiB placed anywhere in the layout, one in 16 is followed by trailing zero bytes such that the distance from a byte of .gnu.version_r/.gnu.version_d to the end of the file is k*65536*{1,2,8,16,20} plus a few records). Oracle for every symbol index 0..n+2: get_requirement = the model's (file,name,hash,flags,hidden) for index versym[i]&0x7fff or None; get_definition = (hash,flags,hidden,names in order) or None; beyond the table never Some. Non-trivial: (>=2 files with >=2 aux each in non-contiguous layout, or >=2 definitions with >=2 names) and a hidden versym entry; distinct by section-bytes hash.",
+        rule: "cases are a version model (0..40 needed files x 0..20 auxiliary records with unique indexes>=2, names, hashes, flags; 0..40 definitions with unique indexes>=1 disjoint from the needs and 1..5 names; a versym array mixing 0, 1, defined, needed, unknown indexes, each optionally with bit 15) laid out by an independent builder: records in a random linear extension of the forward partial order (each Verneed/Verdef before its successor and before its own aux chain, aux chains of different parents interleaved, random garbage gaps, first record at section offset 0) or contiguously, next/aux links as increments, shared or separate string tables, class x order x fixed/run-time spec, queried through SymbolVersionTable::new on bare sections (40% with leading bytes and the matching non-zero starting offset), ElfBytes::symbol_version_table and ElfStream::symbol_version_table on a generated file (sh_link/sh_info wiring, shuffled section order; one file in 64 carries an extra section of 1..2 MiB placed anywhere in the layout, one in 128 has about 0xff00 empty sections in front, one in 16 is followed by trailing zero bytes such that the distance from a byte of .gnu.version_r/.gnu.version_d to the end of the file is k*65536*{1,2,8,16,20} plus a few records). Oracle for every symbol index 0..n+2: get_requirement = the model's (file,name,hash,flags,hidden) for index versym[i]&0x7fff or None; get_definition = (hash,flags,hidden,names in order) or None; beyond the table never Some. Non-trivial: (>=2 files with >=2 aux each in non-contiguous layout, or >=2 definitions with >=2 names) and a hidden versym entry; distinct by section-bytes hash.",
         assumptions: &["well-formedness as the statement scopes it: unique version indexes, vna_other without bit 15, forward links only, UTF-8 names, version 1 records"],
         subs: vec![Sub::new("versions", oracle, 6000, 600_000, 20_000_000)],
         extras: vec![crate::fuzz::c13_choice],
